@@ -142,7 +142,7 @@ pub fn expr_depth(e: &Expr) -> usize {
 /// * `literal-metadata-dropped` — `Expr::Literal(_, Some(metadata))` is encoded without the metadata;
 /// * `alias-metadata-dropped` — `Alias::metadata` is encoded but not decoded;
 /// * `cast-metadata-dropped` — the metadata of a CAST / TRY_CAST target field is encoded but not decoded.
-fn lossy(e: &Expr) -> (Expr, Vec<&'static str>) {
+fn lossy_with(e: &Expr, mask: u8) -> (Expr, Vec<&'static str>) {
     use datafusion::common::tree_node::Transformed;
     use datafusion::common::{Column, TableReference};
     use datafusion::logical_expr::expr::{Cast, TryCast};
@@ -151,7 +151,7 @@ fn lossy(e: &Expr) -> (Expr, Vec<&'static str>) {
         .clone()
         .transform_up(|x| {
             Ok(match x {
-                Expr::Column(c) if c.relation.is_some() => {
+                Expr::Column(c) if mask & 1 != 0 && c.relation.is_some() => {
                     let r = c.relation.as_ref().map(|r| TableReference::parse_str_normalized(&r.to_string(), true));
                     if r != c.relation {
                         tags.push("column-relation-unquoted");
@@ -160,20 +160,20 @@ fn lossy(e: &Expr) -> (Expr, Vec<&'static str>) {
                         Transformed::no(Expr::Column(c))
                     }
                 }
-                Expr::Literal(v, Some(_)) => {
+                Expr::Literal(v, Some(_)) if mask & 2 != 0 => {
                     tags.push("literal-metadata-dropped");
                     Transformed::yes(Expr::Literal(v, None))
                 }
-                Expr::Alias(a) if a.metadata.is_some() => {
+                Expr::Alias(a) if mask & 4 != 0 && a.metadata.is_some() => {
                     tags.push("alias-metadata-dropped");
                     Transformed::yes(Expr::Alias(a.with_metadata(None)))
                 }
-                Expr::Cast(c) if !c.field.metadata().is_empty() => {
+                Expr::Cast(c) if mask & 8 != 0 && !c.field.metadata().is_empty() => {
                     tags.push("cast-metadata-dropped");
                     let f = c.field.as_ref().clone().with_metadata(Default::default());
                     Transformed::yes(Expr::Cast(Cast::new_from_field(c.expr, std::sync::Arc::new(f))))
                 }
-                Expr::TryCast(c) if !c.field.metadata().is_empty() => {
+                Expr::TryCast(c) if mask & 8 != 0 && !c.field.metadata().is_empty() => {
                     tags.push("cast-metadata-dropped");
                     let f = c.field.as_ref().clone().with_metadata(Default::default());
                     Transformed::yes(Expr::TryCast(TryCast::new_from_field(c.expr, std::sync::Arc::new(f))))
@@ -186,6 +186,25 @@ fn lossy(e: &Expr) -> (Expr, Vec<&'static str>) {
     tags.sort();
     tags.dedup();
     (out, tags)
+}
+
+/// all recorded lossy spots applied
+fn lossy(e: &Expr) -> (Expr, Vec<&'static str>) {
+    lossy_with(e, 15)
+}
+
+/// Is `back` what `e` becomes under some subset of the recorded lossy spots? (Subsets, so that repairing one
+/// of them does not turn the cases that also show another one into unexplained differences.)
+fn explain_by_lossy(e: &Expr, back: &Expr) -> Option<Vec<&'static str>> {
+    let mut masks: Vec<u8> = (1..16).collect();
+    masks.sort_by_key(|m| m.count_ones());
+    for m in masks {
+        let (l, tags) = lossy_with(e, m);
+        if !tags.is_empty() && &l == back {
+            return Some(tags);
+        }
+    }
+    None
 }
 
 pub enum ExprRt {
@@ -225,8 +244,7 @@ fn expr_round_trip(e: &Expr, enc_codec: &dyn LogicalExtensionCodec, dec_ctx: &Se
         }
     };
     if &back != e {
-        let (l, tags) = lossy(e);
-        if back == l && !tags.is_empty() {
+        if let Some(tags) = explain_by_lossy(e, &back) {
             return Ok(ExprRt::Known(tags));
         }
         return Err(format!("expression decodes to a different expression\n  original: {e}\n  decoded:  {back}\n  original (debug): {}\n  decoded  (debug): {}", truncate(&format!("{e:?}"), 1500), truncate(&format!("{back:?}"), 1500)));
@@ -354,9 +372,13 @@ async fn run_plan_async(pc: &PlanCase, fx: &Fixture) -> CaseResult {
     if max_depth >= 3 {
         labels.push("plan-expr-depth>=3".into());
     }
-    let decoded = match exec_logical(&b.ctx, &back).await {
-        Ok(x) => x,
-        Err(e) => return CaseResult::violation(format!("decoded plan fails to run although the original runs: {}{}", err_text(&e), ctxt())).labels(labels),
+    let decoded = match no_panic(exec_logical(&b.ctx, &back)).await {
+        // a recorded difference of the decoded plan (e.g. fetch=i64::MAX) may also make it fail or panic at run time
+        None if !known.is_empty() => return known_violation(&known, format!("decoded plan (differing by recorded findings) panics at run time{}", ctxt())).labels(labels),
+        None => return CaseResult::violation(format!("decoded plan panics at run time although the original runs{}", ctxt())).labels(labels),
+        Some(Ok(x)) => x,
+        Some(Err(e)) if !known.is_empty() => return known_violation(&known, format!("decoded plan (differing by recorded findings) fails to run: {}{}", err_text(&e), ctxt())).labels(labels),
+        Some(Err(e)) => return CaseResult::violation(format!("decoded plan fails to run although the original runs: {}{}", err_text(&e), ctxt())).labels(labels),
     };
     if decoded.schema.fields() != original.schema.fields() {
         return CaseResult::violation(format!("decoded plan has another output schema: {:?} vs {:?}{}", decoded.schema, original.schema, ctxt())).labels(labels);
@@ -415,7 +437,7 @@ fn run_expr(spec: &ESpec) -> CaseResult {
     let (lossy_e, _) = lossy(&e);
     let undecodable = known.iter().any(|k| *k == "binary-operator-not-decodable" || *k == "like-escape-char-non-ascii");
     let has_known = !known.is_empty();
-    let accept = |back: &Expr| *back == e || (has_known && *back == lossy_e);
+    let accept = |back: &Expr| *back == e || (has_known && (*back == lossy_e || explain_by_lossy(&e, back).is_some()));
     let nan_literal = e.exists(|x| Ok(matches!(x, Expr::Literal(ScalarValue::Float32(Some(v)), _) if !v.is_finite()) || matches!(x, Expr::Literal(ScalarValue::Float64(Some(v)), _) if !v.is_finite()))).unwrap_or(false);
     // the bytes helpers
     match e.to_bytes() {
